@@ -199,11 +199,17 @@ func zzSameRecord(a, b *BedrockData) bool {
 
 func zzKey() []byte {
 	n := 16
-	switch zz.Choose(3) {
+	switch zz.Choose(5) {
 	case 1:
 		n = 24
 	case 2:
 		n = 32
+	case 3:
+		// key material that happens to be text (e.g. a key file written as hex or a passphrase): Floodgate
+		// uses the raw bytes whatever they look like
+		return []byte("0123456789abcdef0123456789abcdef")
+	case 4:
+		return []byte("QUJDREVGR0hJSktMTU5PUA==") // 24 raw bytes that are also valid Base64 of 16 bytes
 	}
 	k := make([]byte, n)
 	k[0] = zz.Byte()
